@@ -14,6 +14,11 @@
 //! qmvn <seed> <n> <d> <mean d> <cov d*d> <m> (<w d> <c>)*m <K>
 //!        -> rows cols nan m K (v*K)*m : order statistics of w·x + c over the n rows x of sample_n(n)
 //!
+//! h <mode> <dist> <seed> <n> <init params…> <target params…>     -> as `s`, but the object is built with the init
+//!        parameters and brought to the target ones by mode u = `update(&[..])`, f = setters first-to-last,
+//!        r = setters last-to-first, before sampling
+//! hq <mode> <dist> <seed> <n> <K> <init params…> <target params…> -> as `q`, same object history
+//!
 //! dist / params: normal mu sigma | gamma a b | beta a b | chi2 k | t dof | poisson lam | binomial n p |
 //!   exp lam | gumbel mu beta | pareto alpha xm | uniform a b | du lo hi | bern p
 use compute::distributions::*;
@@ -74,6 +79,55 @@ fn build(d: &D) -> Box<dyn Distribution1D> {
         D::Uniform(a, b) => Box::new(Uniform::new(a, b)),
         D::Du(a, b) => Box::new(DiscreteUniform::new(a, b)),
         D::Bern(p) => Box::new(Bernoulli::new(p)),
+    }
+}
+
+/// Build the object with `init`, then bring it to `target` through `update` / the individual setters.
+fn build_via(mode: &str, init: &D, target: &D) -> Box<dyn Distribution1D> {
+    macro_rules! two {
+        ($ty:ident, $a0:expr, $b0:expr, $a:expr, $b:expr, $sa:ident, $sb:ident, $upd:expr) => {{
+            let mut o = $ty::new($a0, $b0);
+            match mode {
+                "u" => o.update(&$upd),
+                "f" => {
+                    o.$sa($a);
+                    o.$sb($b);
+                }
+                _ => {
+                    o.$sb($b);
+                    o.$sa($a);
+                }
+            }
+            Box::new(o)
+        }};
+    }
+    macro_rules! one {
+        ($ty:ident, $a0:expr, $a:expr, $sa:ident, $upd:expr) => {{
+            let mut o = $ty::new($a0);
+            match mode {
+                "u" => o.update(&$upd),
+                _ => {
+                    o.$sa($a);
+                }
+            }
+            Box::new(o)
+        }};
+    }
+    match (init, target) {
+        (&D::Normal(a0, b0), &D::Normal(a, b)) => two!(Normal, a0, b0, a, b, set_mu, set_sigma, [a, b]),
+        (&D::Gamma(a0, b0), &D::Gamma(a, b)) => two!(Gamma, a0, b0, a, b, set_alpha, set_beta, [a, b]),
+        (&D::Beta(a0, b0), &D::Beta(a, b)) => two!(Beta, a0, b0, a, b, set_alpha, set_beta, [a, b]),
+        (&D::Chi2(k0), &D::Chi2(k)) => one!(ChiSquared, k0, k, set_dof, [k as f64]),
+        (&D::T(v0), &D::T(v)) => one!(T, v0, v, set_dof, [v]),
+        (&D::Poisson(l0), &D::Poisson(l)) => one!(Poisson, l0, l, set_lambda, [l]),
+        (&D::Binomial(n0, p0), &D::Binomial(n, p)) => two!(Binomial, n0, p0, n, p, set_n, set_p, [n as f64, p]),
+        (&D::Exp(l0), &D::Exp(l)) => one!(Exponential, l0, l, set_lambda, [l]),
+        (&D::Gumbel(a0, b0), &D::Gumbel(a, b)) => two!(Gumbel, a0, b0, a, b, set_mu, set_beta, [a, b]),
+        (&D::Pareto(a0, b0), &D::Pareto(a, b)) => two!(Pareto, a0, b0, a, b, set_alpha, set_minval, [a, b]),
+        (&D::Uniform(a0, b0), &D::Uniform(a, b)) => two!(Uniform, a0, b0, a, b, set_lower, set_upper, [a, b]),
+        (&D::Du(a0, b0), &D::Du(a, b)) => two!(DiscreteUniform, a0, b0, a, b, set_lower, set_upper, [a as f64, b as f64]),
+        (&D::Bern(p0), &D::Bern(p)) => one!(Bernoulli, p0, p, set_p, [p]),
+        _ => unreachable!(),
     }
 }
 
@@ -159,7 +213,8 @@ fn summary(draws: Vec<f64>, k: usize) -> String {
 }
 
 fn step(_: &mut (), t: &mut Toks) -> R<String> {
-    match t.tok()? {
+    let op = t.tok()?;
+    match op {
         "s" => {
             let name = t.tok()?;
             let (seed, n) = (t.u64()?, t.usize()?);
@@ -213,6 +268,29 @@ fn step(_: &mut (), t: &mut Toks) -> R<String> {
                 alea::set_seed(seed);
                 let v = dist.sample_n(n);
                 ok(summary(v.to_vec(), k))
+            }))
+        }
+        "h" | "hq" => {
+            let is_q = op == "hq";
+            let mode = t.tok()?.to_string();
+            if !matches!(mode.as_str(), "u" | "f" | "r") {
+                return Err(BadOp);
+            }
+            let name = t.tok()?;
+            let (seed, n) = (t.u64()?, t.usize()?);
+            let k = if is_q { t.usize()? } else { 0 };
+            let init = parse_dist(name, t)?;
+            let target = parse_dist(name, t)?;
+            t.end()?;
+            Ok(capped(Duration::from_secs(if is_q { 120 } else { 30 }), move || {
+                let dist = build_via(&mode, &init, &target);
+                alea::set_seed(seed);
+                let v = dist.sample_n(n);
+                if is_q {
+                    ok(summary(v.to_vec(), k))
+                } else {
+                    ok(with_state(show_fs(&v)))
+                }
             }))
         }
         "qmvn" => {
